@@ -2,6 +2,8 @@
 from props import _ikcommon as K
 from props import _finish as F
 ID = "C01"
+# files this check also depends on (the quick tier runs at the thorough sizes when one of them differs from the fingerprinted tree)
+EXTRA_FILES = ['src/constraints.rs']
 COQ_TARGETS = ["Exec/Kin.vo", "Exec/Finish.vo", "Gen/Inverse.vo", "Properties/C01.vo"]
 THEOREMS = ["C01_inverse_sound", "C01_continuing_sound", "C01_inverse_5dof_sound", "C01_continuing_5dof_sound",
             "C01_concrete_inverse", "C01_concrete_continuing", "C01_concrete_inverse_5dof", "C01_concrete_continuing_5dof", "C01_unreachable_empty"]
